@@ -612,7 +612,15 @@ def choose_patterns(bvs, body):
     cands = []
     seen = set()
 
+    memo = {}
+
     def walk(t):
+        tid = t.get_id()
+        if tid not in memo:
+            memo[tid] = walk_(t)
+        return memo[tid]
+
+    def walk_(t):
         """-> (set of bound var indexes in t, True if t is 'clean': bound vars reachable without arithmetic)"""
         if t.get_id() in ids:
             return {ids[t.get_id()]}, True
